@@ -232,6 +232,9 @@ func runCheck(prop, tier string, seed int) int {
 		fmt.Printf("  obligation %s (%s) %s: %s\n  %s\n", o.Name, o.Res.Answer, o.Src, o.Text, detail)
 	}
 	stats := map[string]any{"slow_obligations_left_to_thorough_tier": skippedSlow, "by_solver": bySolver, "solver_time_s": round2(solverSecs), "max_obligation_s": round2(maxSecs), "known_findings": knownHit}
+	if tier == "thorough" && violations == 0 && os.Getenv("GOVC_NOSELFTEST") == "" && os.Getenv("GOVC_REPO") == "" {
+		stats["selftest"] = runSelftest(prop)
+	}
 	writeEvidence(prop, tier, seed, all, keys, notes, violations, stats, time.Since(t0), "")
 	fmt.Printf("property %s: %d functions under contract, %d obligations, %d discharged, %d known findings, %d violations, %.1fs\n",
 		prop, len(keys), counted, discharged, len(knownHit), violations, time.Since(t0).Seconds())
@@ -249,6 +252,84 @@ func runCheck(prop, tier string, seed int) int {
 	}
 	return 0
 }
+
+// runSelftest (thorough tier): the property's quick check against scratch copies of the tree with each
+// must-fail change (reverse of the repairs, hand-made mutants, the seeded change) and each must-pass
+// change (behaviour-preserving edits) applied. The outcome is evidence about the check's strength; it
+// never turns into a violation of the tree under test.
+func runSelftest(prop string) map[string]any {
+	res := map[string]any{}
+	var mustFail, mustPass []string
+	ms, _ := filepath.Glob(filepath.Join(verifDir, "selftest", "mutants", prop+"-*.diff"))
+	mustFail = append(mustFail, ms...)
+	if p := filepath.Join(verifDir, "seeded", prop, "patch.diff"); fileExists(p) {
+		mustFail = append(mustFail, p)
+	}
+	hs, _ := filepath.Glob(filepath.Join(verifDir, "selftest", "harmless", "*.diff"))
+	mustPass = append(mustPass, hs...)
+	self, _ := os.Executable()
+	run := func(patch string) (int, string) {
+		tmp, err := os.MkdirTemp("", "govc-selftest")
+		if err != nil {
+			return -1, err.Error()
+		}
+		defer os.RemoveAll(tmp)
+		repo := filepath.Join(tmp, "repo")
+		if out, err := exec.Command("rsync", "-a", "--exclude", ".git", repoDir+"/", repo+"/").CombinedOutput(); err != nil {
+			return -1, string(out)
+		}
+		cmd := exec.Command("patch", "-p1", "-s", "-i", patch)
+		cmd.Dir = repo
+		if out, err := cmd.CombinedOutput(); err != nil {
+			return -2, "patch does not apply: " + oneLine(string(out))
+		}
+		c := exec.Command(self, "check", "--property", prop, "--tier", "quick")
+		c.Env = append(os.Environ(), "GOVC_REPO="+repo, "GOVC_OUTROOT="+filepath.Join(tmp, "o"))
+		out, _ := c.CombinedOutput()
+		code := 0
+		if c.ProcessState != nil {
+			code = c.ProcessState.ExitCode()
+		}
+		var keep []string
+		for _, ln := range strings.Split(string(out), "\n") {
+			if strings.HasPrefix(ln, "VIOLATION") || strings.HasPrefix(ln, "UNDECIDED") {
+				keep = append(keep, strings.ReplaceAll(ln, tmp, "<scratch>"))
+			}
+		}
+		if len(keep) > 3 {
+			keep = keep[:3]
+		}
+		return code, strings.Join(keep, " | ")
+	}
+	var fails, passes []map[string]any
+	missed, alarms := 0, 0
+	for _, p := range mustFail {
+		code, out := run(p)
+		fails = append(fails, map[string]any{"change": filepath.Base(filepath.Dir(p)) + "/" + filepath.Base(p), "exit": code, "report": out})
+		if code == 0 {
+			missed++
+			fmt.Printf("SELFTEST: property=%s the change %s is not reported by the quick check\n", prop, p)
+		}
+	}
+	for _, p := range mustPass {
+		code, out := run(p)
+		if code == -2 {
+			continue
+		}
+		passes = append(passes, map[string]any{"change": filepath.Base(p), "exit": code, "report": out})
+		if code == 1 {
+			alarms++
+			fmt.Printf("SELFTEST: property=%s the behaviour-preserving change %s raises an alarm\n", prop, p)
+		}
+	}
+	res["must_fail"] = fails
+	res["must_pass"] = passes
+	res["must_fail_not_reported"] = missed
+	res["must_pass_alarms"] = alarms
+	return res
+}
+
+func fileExists(p string) bool { _, err := os.Stat(p); return err == nil }
 
 func round2(f float64) float64 { return float64(int(f*100+0.5)) / 100 }
 
